@@ -268,6 +268,15 @@ def as_sym(v, what="value"):
     raise AnalysisError(f"{what} is not a numeric expression: {type(v).__name__} {v!r}")
 
 
+def _exception_is_a(raised, handler):
+    """Python's own class hierarchy of the built-in exceptions (FileNotFoundError and IsADirectoryError are OSErrors, KeyError is a LookupError ...)"""
+    import builtins
+    a, b = getattr(builtins, raised, None), getattr(builtins, handler, None)
+    if handler in ("IOError", "EnvironmentError"):
+        b = OSError
+    return isinstance(a, type) and isinstance(b, type) and issubclass(a, BaseException) and issubclass(a, b)
+
+
 class RaisedV(AnalysisError):
     """the analysed path reaches `raise X(...)`; rules that expect a refusal catch this"""
 
@@ -2094,7 +2103,8 @@ class Ev:
                     names = [dotted_name(x) for x in h.type.elts]
                 else:
                     names = [dotted_name(h.type)]
-                if names is None or any(nm and (nm.split(".")[-1] == e.exc_name.split(".")[-1] or nm in ("Exception", "BaseException")) for nm in names):
+                if names is None or any(nm and (nm.split(".")[-1] == e.exc_name.split(".")[-1] or nm in ("Exception", "BaseException")
+                                                 or _exception_is_a(e.exc_name.split(".")[-1], nm.split(".")[-1])) for nm in names):
                     if h.name:
                         env[h.name] = Opaque(f"exception {e.exc_name}")
                     self.exec_body(h.body, env, mod)
